@@ -40,6 +40,7 @@ def shard(col, module, chrom_len, base_n, seqs, max_execs):
     try:
         world = tcenum.World(module, scratch,
                              config_over={"search_algorithm__chromosome_length": chrom_len})
+        world.index_full_upto = 12      # every callable of the module is a menu item of the accessible choice
         for seq, bound in seqs:
             script = [("insert",)] * base_n + [(o,) for o in seq]
             state = {}
@@ -109,6 +110,7 @@ def shard_crossover(col, module, chrom_len, pop_bound):
     try:
         world = tcenum.World(module, scratch,
                              config_over={"search_algorithm__chromosome_length": chrom_len})
+        world.index_full_upto = 12
         pop, _ = tcenum.enumerate_testcases(world, [("insert",)] * 2, pop_bound)
         tests = [t for (t, _) in pop.values() if 1 <= t.size() <= chrom_len]
         tests = tests[:20]
